@@ -13,7 +13,7 @@ PROP = 'C05'
 RULE = ('Hypothesis-generated histories of 1..12 steps against ONE worker process: each step = (document, format, extensions, language, '
         'API shape) with documents from a pool chosen for statefulness (e-mail autolinks, notes/citations/glossary/abbreviations, headings '
         '+ cross-references, tables, images, metadata, CriticMarkup, a multi-slab document, OPML source) plus G-doc and corpus documents; '
-        'API shapes: string / DString / to_data variants, a reused engine converting several formats with metadata queries in between, '
+        'API shapes: string / DString / to_data variants, a reused engine converting several formats with metadata queries in between (or metadata queries only, before the engine is given another source), '
         'in-place source replacement through mmd_engine_d_string(), and exporting the already parsed tree of a reused engine again through '
         'mmd_engine_export_token_tree() without re-parsing (one parse, many writers); random-anchor steps are executed as history but not compared; '
         'pool bracket per step or around the whole history. Oracle: every compared step equals the same call made FIRST in a fresh '
@@ -63,7 +63,7 @@ def corpus():
 docref = st.one_of(st.integers(0, len(STATEFUL) - 1).map(lambda i: ['s', i]), st.integers(0, len(STATEFUL) - 1).map(lambda i: ['s', i]),
                    st.integers(0, 200).map(lambda i: ['c', i]), gdoc.document(CFG).map(lambda d: ['g', d]), st.just(['m', 0]), st.just(['o', 0]))
 step = st.fixed_dictionaries({'doc': docref, 'fmt': st.sampled_from(FMTS), 'ext': st.sampled_from(EXTS), 'lang': st.integers(0, 6),
-                              'api': st.sampled_from(['s', 'd', 'sd', 'dd', 'e', 'ed', 'E', 'E', 'Esrc', 'Emeta', 'Eexp', 'Eexp'])})
+                              'api': st.sampled_from(['s', 'd', 'sd', 'dd', 'e', 'ed', 'E', 'E', 'Esrc', 'Emeta', 'Eexp', 'Eexp', 'Equery'])})
 
 
 def strategy(tier):
@@ -156,10 +156,15 @@ def check(case, ctx):
                 if engine[3] != lang:
                     w.call('elang', engine[0], lang)
                     engine[3] = lang
-                if api == 'Emeta':
+                if api in ('Emeta', 'Equery'):
                     w.call('ehas', engine[0])
                     w.call('ekeys', engine[0])
                     w.call('evalue', engine[0], 'title')
+                if api == 'Equery' and case['outer_pool']:
+                    # metadata queries only (they parse just the metadata block): the engine goes on to the next step without a conversion
+                    ctx.cls('api_Equery')
+                    prev_stateful = True
+                    continue
                 exported = api == 'Eexp' and fmt in ('html', 'latex', 'beamer', 'memoir', 'opml') and s['doc'][0] != 'o'
                 if exported:
                     # one parse, many exports: the tree that an earlier export of this engine has walked is exported again without re-parsing
